@@ -2,6 +2,7 @@
 Event syntax: see ml/monitor/driver.ml."""
 
 N_NAMES = 3           # well-known names n0..n2 are requested; n3 is never owned
+ACTIVATABLE = (4, 5)  # names with a service file
 IFACES = [6, 6, 6, 7, 4, 5, 2]
 MEMBERS = [20, 20, 21, 10]
 
@@ -47,6 +48,19 @@ def scenarios():
     # an unanswered call to itself (by unique name / by a name it owns) at the switch: the record is forgotten, no NoReply to the monitor
     add("switch-self-call", "C C C B.2.2.- S.0.c.u0.6.20.2.0.0.0.0 B.0.3.- G.1.2")
     add("switch-self-call-by-name", "C C R.0.2.1.0 S.0.c.n1.6.20.3.0.0.0.0 S.1.c.n1.6.21.2.0.0.0.0 B.0.4.- G.1.3")
+    # messages held for activation: captured when received, delivered (not captured again) when the name appears
+    add("held-basic", "C C C B.2.2.- S.0.c.n4.6.20.2.0.0.0.0 S.0.s.n4.6.21.3.0.0.0.0 R.1.2.4.0 S.1.r.u0.0.0.3.2.0.0.0 D.1")
+    add("held-noauto-and-denied", "C C C B.2.2.- S.0.c.n4.6.20.2.0.0.0.1 S.0.c.n4.4.20.3.0.0.0.0 S.0.c.n4.0.20.4.0.0.0.0 S.0.c.n5.5.20.5.0.0.0.0 "
+                                  "R.1.2.4.0 R.1.3.5.0 L.1.4.5 S.0.c.n5.6.20.6.0.0.0.0 R.1.5.5.0")
+    add("held-sender-left", "C C C B.2.2.- S.0.c.n4.6.20.2.0.0.0.0 S.1.c.n4.6.20.2.0.0.0.0 D.0 R.1.3.4.0")
+    add("held-monitor-joins-later", "C C C S.0.c.n4.6.20.2.0.0.0.0 B.2.2.- R.1.2.4.0 S.1.r.u0.0.0.3.2.0.0.0")
+    # F18e: a connection with a call held for activation becomes a monitor; the call is delivered later, and so is the NoReply
+    add("held-then-monitor", "C C C B.2.2.- S.0.c.n4.6.20.2.0.0.0.0 B.0.3.- R.1.2.4.0 D.1 G.2.9")
+    add("held-then-monitor-selective", "C C C S.0.c.n5.6.20.2.0.0.0.0 B.0.3.s/-/-/-/- R.1.2.5.0 D.1")
+    # refused BecomeMonitor calls change nothing: unprivileged caller, bad rule (alone, after good ones), flags, signature
+    add("become-refusals", "C Cu C B.2.2.- R.0.2.0.0 A.0.3.s/-/-/-/- S.1.c.u0.6.20.2.0.0.0.0 B.1.3.- B.0.4.! B.0.5.s/-/-/-/-,c/-/-/6/-,! B.0.6.!,-/-/-/-/- "
+                           "B.0.7.-.1.1 B.0.8.-.4294967295.1 B.0.9.-.0.0 B.0.10.!.1.0 S.2.s.-.6.20.3.0.0.0.0 S.0.r.u1.0.0.11.2.0.0.0 G.0.12 B.0.13.-/-/-/-/- G.1.4")
+    add("unprivileged-ordinary", "C Cu B.0.2.- S.1.s.-.6.20.2.0.0.0.0 R.1.3.0.0 B.1.4.- D.1")
     add("no-monitor", "C C A.1.2.s/-/-/-/- S.0.s.-.6.20.2.0.0.0.0 R.0.3.0.0 D.0")
     add("monitor-disconnects", "C C C B.1.2.- B.2.2.- D.1 S.0.s.-.6.20.2.0.0.0.0 D.2 S.0.s.-.6.20.3.0.0.0.0")
     return S
@@ -73,7 +87,7 @@ def rand_filter(rnd, st, monitor):
 
 
 def gen_history(rnd, n_events):
-    st = {"live": [], "ever": [], "mons": [], "serial": {}, "next": 0, "pending": [], "owners": {}}
+    st = {"live": [], "ever": [], "mons": [], "serial": {}, "next": 0, "pending": [], "owners": {}, "unpriv": set(), "held": set()}
     ev = []
 
     def ser(c, reuse=False):
@@ -88,7 +102,11 @@ def gen_history(rnd, n_events):
         st["live"].append(c)
         st["ever"].append(c)
         st["serial"][c] = 1
-        ev.append("C")
+        if rnd.random() < 0.15:
+            st["unpriv"].add(c)
+            ev.append("Cu")
+        else:
+            ev.append("C")
 
     def ordinary():
         return [c for c in st["live"] if c not in st["mons"]]
@@ -107,8 +125,10 @@ def gen_history(rnd, n_events):
         live = st["live"]
         if r < 0.45 and live:
             return "u%d" % rnd.choice(live)
-        if r < 0.7:
+        if r < 0.62:
             return "n%d" % rnd.randrange(N_NAMES)
+        if r < 0.72:
+            return "n%d" % rnd.choice(ACTIVATABLE)        # a name with a service file: held for activation if nobody owns it
         if r < 0.78:
             return "n%d" % N_NAMES
         if r < 0.86 and st["ever"]:
@@ -138,6 +158,8 @@ def gen_history(rnd, n_events):
             nr = 1 if rnd.random() < 0.15 else 0
             na = 1 if rnd.random() < 0.3 else 0
             ev.append("S.%d.c.%s.%d.%d.%d.0.0.%d.%d" % (c, d, iface, member, s, nr, na))
+            if d in ("n4", "n5") and not na and not st["owners"].get(d):
+                st["held"].add(c)
             if d.startswith("u") and int(d[1:]) in st["live"] and not nr:
                 st["pending"].append((c, int(d[1:]), s))
             elif d.startswith("n") and st["owners"].get(d) and not nr:
@@ -186,9 +208,27 @@ def gen_history(rnd, n_events):
                 n = rnd.randrange(N_NAMES)
                 ev.append("R.%d.%d.%d.0" % (c, ser(c), n))
                 ev.append("R.%d.%d.%d.0" % (rnd.choice(others), ser(rnd.choice(others)), n))
+            elif k < 0.62:
+                sv = ser(c)
+                ev.append("S.%d.c.n%d.6.20.%d.0.0.0.0" % (c, rnd.choice(ACTIVATABLE), sv))   # a call of its own held for activation
             r = rnd.random()
             fs = "-" if r < 0.45 else ",".join(rand_filter(rnd, st, True) for _ in range(rnd.choice([1, 1, 2, 3])))
+            # refusals: every one of them must leave the connection exactly as it was
+            v = rnd.random()
+            if v < 0.07:
+                items = [] if fs == "-" else fs.split(",")
+                items.insert(rnd.randint(0, len(items)), "!")
+                ev.append("B.%d.%d.%s" % (c, ser(c), ",".join(items)))
+            elif v < 0.12:
+                ev.append("B.%d.%d.%s.%d.1" % (c, ser(c), fs, rnd.choice([1, 2, 4294967295])))
+            elif v < 0.16:
+                ev.append("B.%d.%d.%s.0.0" % (c, ser(c), fs))
+            if v < 0.16 and rnd.random() < 0.5:
+                switch_at.insert(0, i + 1)          # and then properly
+                continue
             ev.append("B.%d.%d.%s" % (c, ser(c), fs))
+            if c in st["unpriv"]:
+                continue
             st["mons"].append(c)
             st["pending"] = [p for p in st["pending"] if c not in p[:2]]
             for n in list(st["owners"]):
@@ -202,7 +242,7 @@ def gen_history(rnd, n_events):
             ev.append("A.%d.%d.%s" % (c, ser(c), rand_filter(rnd, st, False)))
         elif r < 0.27:
             c = rnd.choice(ords)
-            n = rnd.randrange(N_NAMES)
+            n = rnd.randrange(N_NAMES) if rnd.random() < 0.8 else rnd.choice(ACTIVATABLE)
             dnq = 1 if rnd.random() < 0.25 else 0
             ev.append("R.%d.%d.%d.%d" % (c, ser(c), n, dnq))
             q = st["owners"].setdefault("n%d" % n, [])
@@ -212,7 +252,7 @@ def gen_history(rnd, n_events):
                 q.remove(c)
         elif r < 0.34:
             c = rnd.choice(ords)
-            n = rnd.randrange(N_NAMES)
+            n = rnd.randrange(N_NAMES) if rnd.random() < 0.85 else rnd.choice(ACTIVATABLE)
             ev.append("L.%d.%d.%d" % (c, ser(c), n))
             q = st["owners"].get("n%d" % n, [])
             if c in q:
@@ -245,20 +285,29 @@ def gen_history(rnd, n_events):
     return ev
 
 
+def switch_succeeds(f, unpriv):
+    """BecomeMonitor by an ordinary connection: privileged caller, signature asu, flags 0, every rule parses"""
+    if int(f[1]) in unpriv or "!" in f[3].split(","):
+        return False
+    return len(f) < 5 or (f[4] == "0" and f[5] == "1")
+
+
 def paired(events):
     """history B: every successful switch becomes a plain disconnect of that connection"""
-    live, mons, nxt, out = set(), set(), 0, []
+    live, mons, nxt, out, unpriv = set(), set(), 0, [], set()
     for e in events:
         f = e.split(".")
-        if f[0] == "C":
+        if f[0] in ("C", "Cu"):
             live.add(nxt)
+            if f[0] == "Cu":
+                unpriv.add(nxt)
             nxt += 1
             out.append(e)
         elif f[0] == "D":
             live.discard(int(f[1]))
             mons.discard(int(f[1]))
             out.append(e)
-        elif f[0] == "B" and int(f[1]) in live and int(f[1]) not in mons:
+        elif f[0] == "B" and int(f[1]) in live and int(f[1]) not in mons and switch_succeeds(f, unpriv):
             mons.add(int(f[1]))
             out.append("D.%s" % f[1])
         else:
